@@ -96,6 +96,12 @@ USER = {
                       fill_value=(dt.NINF, dt.INF), final_fill_value=dt.NA, final_dtype=np.floating),
  'meansq': Aggregation('meansq', numpy=None, chunk=('sum_of_squares','nanlen'), combine=('sum','sum'), finalize=_rms_fin,
                       fill_value=(0, 0), dtypes=(None, np.intp), final_dtype=np.floating),
+ # DIFFERENT user aggregations that share a name (a definition reworked during a session), and one named like a built-in:
+ # each must be combined with ITS OWN combine functions
+ 'mine_max': Aggregation('mine', numpy='max', chunk='max', combine='max', fill_value=dt.NINF, final_fill_value=dt.NA),
+ 'mine_sum': Aggregation('mine', numpy='sum', chunk='sum', combine='sum', fill_value=0, final_fill_value=dt.NA),
+ 'mine_min': Aggregation('mine', numpy='min', chunk='min', combine='min', fill_value=dt.INF, final_fill_value=dt.NA),
+ 'sum_named_max': Aggregation('sum', numpy='max', chunk='max', combine='max', fill_value=dt.NINF, final_fill_value=dt.NA),
 }
 """
 
@@ -124,7 +130,8 @@ def user_agg_cases(rng, n):
         want = []
         for g in (0, 1):
             x = vals[labels == g]
-            want.append(x.max() - x.min() if name == "range" else (x ** 2).sum() / len(x))
+            want.append({"range": x.max() - x.min(), "meansq": (x ** 2).sum() / len(x), "mine_max": x.max(), "mine_sum": x.sum(), "mine_min": x.min(),
+                         "sum_named_max": x.max()}[name])
         with warnings.catch_warnings(), dask.config.set(scheduler="sync", split_every=2):
             warnings.simplefilter("ignore")
             for reindex in (True, False):
